@@ -79,6 +79,9 @@ class B(object):
         self.expected = None
         self.why = None
         self.skip = None
+        self.cond = False                 # sits inside a compound statement of its scope
+        self.nested_locals = False        # a scope nested in the owner reads `locals`
+        self.rebound = None               # (kind of nested locals-reading scope that binds id again, conditionally?)
 
     def shape(self):
         if self.id == '_':
@@ -130,6 +133,9 @@ def _charcol(lines, lineno, bytecol):
     return len(line.encode('utf-8')[:bytecol].decode('utf-8', 'replace'))
 
 
+COMPOUND = tuple(getattr(ast, n) for n in ('If', 'For', 'AsyncFor', 'While', 'With', 'AsyncWith', 'Try', 'TryStar',
+                                            'Match') if hasattr(ast, n))
+
 DEF_RE = re.compile(r'(?:async(?:[ \t\f]|\\\n)+)?(?:def|class)((?:[ \t\f]|\\\n)+)')
 
 
@@ -147,13 +153,17 @@ class Oracle(object):
             if isinstance(n, ast.Name) and isinstance(n.ctx, ast.Load):
                 self.read_ids.add(n.id)
         self.module = Sc('module', self.tree, None)
+        self.scopes = [self.module]
+        self._cond = 0                    # depth of compound statements inside the current scope
         self.stmts(self.tree.body, self.module, None, 0)
+        self.locals_context()
         for b in self.bindings:
             self.resolve(b)
 
     # -- enumeration ----------------------------------------------------------------------
     def add(self, id, kind, sc, exact, lo, hi, unv, comp, **kw):
         b = B(id, kind, sc, exact, lo, hi, unv=unv, in_comp=bool(comp), **kw)
+        b.cond = self._cond > 0
         self.bindings.append(b)
         if kind != 'comp' and kind != 'star':
             sc.local_ids.add(id)
@@ -214,28 +224,73 @@ class Oracle(object):
         self.exprs([x.annotation for x in (a.vararg, a.kwarg) if x], outer, unv, comp)
 
     def visit(self, node, sc, unv, comp):
+        compound = type(node) in COMPOUND
+        if compound:
+            self._cond += 1
+        try:
+            self._visit(node, sc, unv, comp)
+        finally:
+            if compound:
+                self._cond -= 1
+
+    def new_scope(self, kind, node, parent, **kw):
+        inner = Sc(kind, node, parent, **kw)
+        self.scopes.append(inner)
+        return inner
+
+    def in_scope(self, fn, *a):
+        saved, self._cond = self._cond, 0
+        try:
+            fn(*a)
+        finally:
+            self._cond = saved
+
+    def locals_context(self):
+        """for the accounting of the `locals` exclusion: which scopes have a nested scope that reads
+        `locals`, and which (outer scope, identifier) pairs are bound again inside such a nested scope"""
+        self.has_nested_locals = set()
+        self.rebound_in_locals_scope = {}
+        self.nonlocal_in_locals_scope = set()
+        for S in self.scopes:
+            if not S.reads_locals or S.kind == 'module':
+                continue
+            self.nonlocal_in_locals_scope.update(S.nonlocals)
+            mine = {}
+            for b in self.bindings:
+                if b.site is S and b.kind != 'star':
+                    mine[b.id] = mine.get(b.id, False) or b.cond
+            A = S.parent
+            while A is not None:
+                self.has_nested_locals.add(id(A))
+                for name, cond in mine.items():
+                    k = (id(A), name)
+                    old = self.rebound_in_locals_scope.get(k)
+                    self.rebound_in_locals_scope[k] = (S.kind, cond or bool(old and old[1]))
+                A = A.parent
+
+    def _visit(self, node, sc, unv, comp):
         T = type(node)
         if T in (ast.FunctionDef, ast.AsyncFunctionDef):
             kind = 'def' if T is ast.FunctionDef else 'asyncdef'
             self.add(node.name, kind, sc, self.def_name_pos(node), node.lineno,
                      max(node.lineno, node.body[0].lineno), unv, comp)
             self.exprs(node.decorator_list, sc, unv, comp)
-            inner = Sc('function', node, sc, via_class_comp=(sc.kind == 'class' and comp > 0))
+            inner = self.new_scope('function', node, sc, via_class_comp=(sc.kind == 'class' and comp > 0))
             self.arguments(node.args, inner, sc, unv, comp)
             self.exprs([node.returns], sc, unv, comp)
-            self.stmts(node.body, inner, unv, 0)
+            self.in_scope(self.stmts, node.body, inner, unv, 0)
         elif T is ast.Lambda:
-            inner = Sc('lambda', node, sc, via_class_comp=(sc.kind == 'class' and comp > 0))
+            inner = self.new_scope('lambda', node, sc, via_class_comp=(sc.kind == 'class' and comp > 0))
             self.arguments(node.args, inner, sc, unv, comp)
-            self.visit(node.body, inner, unv, 0)
+            self.in_scope(self.visit, node.body, inner, unv, 0)
         elif T is ast.ClassDef:
             self.add(node.name, 'class', sc, self.def_name_pos(node), node.lineno,
                      max(node.lineno, node.body[0].lineno), unv, comp)
             self.exprs(node.decorator_list, sc, unv, comp)
             self.exprs(node.bases, sc, unv, comp)
             self.exprs([k.value for k in node.keywords], sc, unv or 'class-keyword', comp)
-            inner = Sc('class', node, sc)
-            self.stmts(node.body, inner, unv, 0)
+            inner = self.new_scope('class', node, sc)
+            self.in_scope(self.stmts, node.body, inner, unv, 0)
         elif T in (ast.ListComp, ast.SetComp, ast.GeneratorExp, ast.DictComp):
             first = True
             for g in node.generators:
@@ -390,6 +445,12 @@ class Oracle(object):
         if sc.reads_locals or owner.reads_locals:
             b.skip = 'scope-reads-locals'
             return
+        if b.id in self.nonlocal_in_locals_scope and owner.kind in ('function', 'lambda'):
+            # a nested function that declares the name nonlocal and calls locals() does read it
+            b.skip = 'declared-nonlocal-in-a-scope-that-reads-locals'
+            return
+        b.nested_locals = id(owner) in self.has_nested_locals
+        b.rebound = self.rebound_in_locals_scope.get((id(owner), b.id))
         under = b.id.startswith('_')
         is_import = b.kind in IMPORT_KINDS
         if is_import and sc.kind in ('module', 'class'):
@@ -431,14 +492,17 @@ def binding_kind_for_hist(b):
 def missing_label(b):
     if b.unv:
         return 'missing:inside-' + b.unv
-    if b.kind == 'param-posonly':
-        return 'missing:posonly-param'
-    if b.kind == 'except' and b.trystar:
-        return 'missing:except-star-name'
     if b.via == 'comp-under-global':
         return 'missing:comp-var-under-global-decl'
     if b.via == 'nonlocal' and b.site.kind == 'class':
         return 'missing:nonlocal-in-class-body'
+    if b.rebound:
+        return 'missing:outer-binding-rebound-in-nested-%s-that-reads-locals' % (
+            'class-body' if b.rebound[0] == 'class' else b.rebound[0])
+    if b.kind == 'param-posonly':
+        return 'missing:posonly-param'
+    if b.kind == 'except' and b.trystar:
+        return 'missing:except-star-name'
     if b.via == 'global' and b.site.kind == 'module' and b.kind in IMPORT_KINDS:
         return 'missing:import-under-module-level-global-decl'
     return 'missing:other:%s:%s' % (b.kind, b.scope_label())
@@ -467,6 +531,16 @@ def marginals(part, b):
     part.hist('scope_kind', b.scope_label())
     part.hist('name_shape', b.shape())
     part.hist('expected_by_kind', '%s->%s' % (binding_kind_for_hist(b), b.expected or 'silent'))
+    if b.nested_locals:
+        part.count('bindings_checked_although_a_nested_scope_reads_locals')
+    if b.rebound:
+        k, cond = b.rebound
+        part.count('outer_bindings_checked_although_rebound_in_nested_%s_reading_locals' % k)
+        part.hist('locals_rebinding', 'nested %s, %s rebinding; outer %s in %s -> %s' % (
+            k, 'conditional' if cond else 'unconditional', binding_kind_for_hist(b), b.owner.kind,
+            b.expected or 'silent'))
+        if b.expected and cond and k == 'class':
+            part.count('reportable_outer_bindings_conditionally_rebound_in_class_body_reading_locals')
 
 
 def compare(part, text, filename, projdir, origin, case_extra=None, histname='matrix'):
@@ -757,12 +831,19 @@ def main(run):
              'one never-read binding for which a report is expected and one for which silence is expected; a real '
              'file when at least one never-read binding was compared; distinct by (seed, index) or path',
         require=('lint_calls', 'bindings_compared', 'reports_confirmed', 'silence_confirmed', 'expected_W01',
-                 'expected_W02', 'generated_modules', 'real_files', 'matrix_cells_covered', 'star_names_resolved_by_supp'),
+                 'expected_W02', 'generated_modules', 'real_files', 'matrix_cells_covered', 'star_names_resolved_by_supp',
+                 'reportable_outer_bindings_conditionally_rebound_in_class_body_reading_locals',
+                 'bindings_skipped:scope-reads-locals', 'bindings_checked_although_a_nested_scope_reads_locals'),
         assumptions=[
             'never read = no ast.Name(id, Load) anywhere in the file (strings, __all__, attribute names do not count)',
             'a comprehension variable is owned by the function/lambda/class/module that contains the comprehension '
             '(W01 expected only when that is a function or lambda); a walrus target likewise',
             'a parameter is "of a method" when the def/lambda that declares it is evaluated directly in a class scope',
+            '`locals` exclusion: only bindings whose own (site or owning) scope reads `locals` are excluded '
+            '(counter bindings_skipped:scope-reads-locals), plus names a locals-reading scope declares nonlocal; a '
+            'never-read binding of an enclosing scope stays in the domain even when a nested class body / function '
+            'binds the same identifier and calls locals() (counters bindings_checked_although_a_nested_scope_reads_locals, '
+            'outer_bindings_checked_although_rebound_in_nested_*_reading_locals, histogram locals_rebinding)',
             'excluded and counted: scopes that read `locals`, identifiers that are AugAssign or del targets, match '
             'captures, PEP 695 names, `import __future__ as x`, imports in a class body under a global/nonlocal '
             'declaration, lambdas inside class-level comprehensions',
